@@ -297,9 +297,10 @@ class Sim:
         for n in touched:
             e = self.eff(n, None if (n == root and first) else cfg)
             first = False
-            if n in self.gov and self.gov[n] != e:
+            # every Meta under which n's tables were (re)written by an earlier call
+            if any(g != e for g in self.gov.get(n, [])):
                 regions.add('F10')
-            self.gov.setdefault(n, e)
+            self.gov.setdefault(n, []).append(e)
             if n in self.tainted22:
                 regions.add('F22')
             if n in self.tainted11:
